@@ -76,7 +76,16 @@ LedgerSet(name) ==
       \* small instance for the coverage and the non-vacuity runs
       [] name = "cover" ->
             LedgersOf(0, {2}, AllT) \cup LedgersOf(1, {3}, {1, 4, 6}) \cup LedgersOf(2, {2, 4}, {1, 4})
+      \* nested statements: ledgers whose transactions differ in date and in accounts (what a subquery selects differs
+      \* between the ledger and its period reports)
+      [] name = "nested" ->
+            LedgersOf(1, {3}, {1, 6}) \cup { l \in LedgersOf(2, {2, 4}, {1, 3, 4, 7}) : l[1].date < l[2].date /\ l[1].ps # l[2].ps }
+      [] name = "nestedthorough" ->
+            LedgersOf(1, {3}, AllT) \cup { l \in LedgersOf(2, 2..4, {1, 3, 4, 6, 7, 9}) : l[1].ps # l[2].ps }
+              \cup { l \in LedgersOf(3, {2, 3, 4}, {1, 3, 4, 6}) : l[1].date = 2 /\ l[2].date = 3 /\ l[3].date = 4 }
 InitNone == InitWith(LedgerSet("none"))
+InitNested == InitWith(LedgerSet("nested"))
+InitNestedThorough == InitWith(LedgerSet("nestedthorough"))
 InitQuick == InitWith(LedgerSet("quick"))
 InitThorough == InitWith(LedgerSet("thorough"))
 InitCover == InitWith(LedgerSet("cover"))
@@ -89,6 +98,17 @@ F(n, a) == [n |-> n, a |-> a]
 FNone == {NoFilter}
 FSome == {NoFilter, F("nott", 1), F("ge", 3)}
 FAll == {NoFilter, F("orig", 0), F("synth", 0), F("nott", 1), F("onlyt", 2), F("ge", 3), F("lt", 4)}
+Open03 == {0, 3}
+Close04 == {-1, 0, 4}
+Close024 == {-1, 0, 2, 4}
+InnersNone == {NoInner}
+\* subqueries: every clause subset (CLOSE bare / dated, once before the OPEN date: rejected) x a filter expression; a
+\* subquery without any FROM clause is outside the statement
+InnersOf(opens, closes, filters) ==
+    { [on |-> TRUE, c |-> c] : c \in { x \in [open : opens, close : closes, clear : BOOLEAN, filter : filters] : HasFrom(x) } }
+InnersQuick == InnersOf(Open03, Close04, {NoFilter, F("onlyt", 2), F("ge", 3)})
+InnersCover == InnersOf(Open03, {-1, 4}, {F("ge", 3)})
+InnersThorough == InnersOf(Open03, Close024, FAll)
 OrderStated == <<"open", "close", "clear", "filter">>
 OrderClearFirst == <<"open", "clear", "close", "filter">>
 OrderClearAlso == <<"open", "clear", "close", "clear", "filter">>      \* the recorded edit: CLEAR also applied before CLOSE
